@@ -11,7 +11,7 @@ def c15_jobs(tier):
     q = tier == 'quick'
     return [job('reuse-plain', 'c15', 'plain', threads=1, shards=4 if q else 12, timeout=7200),
             # asan: asserts live, LeakSanitizer on (exceptions thrown in the middle of a solve must not leak), same scripts, every 2nd / 8th history
-            job('reuse-asan',  'c15', 'asan',  threads=1, shards=6 if q else 12, timeout=14400, args=['--stride=2'] if q else ['--stride=8'])]
+            job('reuse-asan',  'c15', 'asan',  threads=1, shards=6 if q else 12, timeout=14400, args=['--stride=2'] if q else ['--stride=16'])]
 
 # Oracle strength notes:
 #  * "fresh object" = same constructor arguments; after a rebuild step the fresh object is rebuilt with the *latest* matrix only (a rebuild
@@ -24,12 +24,12 @@ def c15_jobs(tier):
 PROPS['C15'] = dict(
     level='exploration', jobs=c15_jobs,
     rule='history scripts over one make_solver<runtime::preconditioner, runtime::solver::wrapper> object: 13 solver variants (8 solvers x sides, + LGMRES always_reset=false) x 6 preconditioners '
-         '(3 AMG cells, relaxation, dummy, nested) x seeded scripts (quick 5 of length 6, thorough 100 of length 4..20) mixing solves (4 right-hand sides x 3 initial guesses), zero right-hand side, '
+         '(3 AMG cells, relaxation, dummy, nested) x seeded scripts (quick 5 of length 6, thorough 400 of length 4..20) mixing solves (4 right-hand sides x 3 initial guesses), zero right-hand side, '
          'converged initial guess, failing calls (NaN / Inf / overflowing right-hand side, NaN guess, singular alternative matrix), alternative-matrix solves, precond().apply, make_solver::apply and '
          'rebuild; plus solver objects with a harness preconditioner that throws in the middle of a solve, and skyline_lu histories. A case is non-trivial when its whole script ran; '
          'distinct = distinct (sub-check, configuration, script) descriptor. Matrices: 5-point diffusion / convection-diffusion, n = 120..400.',
     exhaustive_note='the 13 x 6 (solver variant, preconditioner) grid is enumerated completely; scripts are sampled',
-    min_nontrivial=dict(quick=300, thorough=6000),
+    min_nontrivial=dict(quick=300, thorough=25000),
     assumptions=COMMON_ASSUME + ['bitwise equality is demanded single-threaded only'],
     technique='differential oracle over call histories: reused object vs freshly constructed object, bitwise; inputs held in mprotect-ed read-only pages and digested after every call; ASan/UBSan/LeakSanitizer on the same scripts',
     level_text='After every step of every script the same call is made on a freshly constructed object and (iterations, residual, solution) are compared bitwise; zero right-hand side, converged initial guess and '
